@@ -102,6 +102,10 @@ func Run(args []string) *rep.Report {
 		if idx%sn != si || (*limit > 0 && r.Evaluations >= *limit) {
 			return nil
 		}
+		if len(r.Divergences) >= 6 {
+			r.AddExtra("skipped_after_divergences", 1) // the verdict is settled; the remaining behaviours would only cost watchdog time
+			return nil
+		}
 		var b behaviour
 		if err := json.Unmarshal(line, &b); err != nil {
 			return fmt.Errorf("line %d: %w", idx, err)
